@@ -61,7 +61,11 @@ CheckCtx(r) ==
       rows == [k \in 1..Len(lines) |-> R!StrictParse(lines[k])] \o <<>>
       srcs == r.srcs
       \* the values each source holds (clean input): [vals, spans]
-      refs == [s \in 1..Len(srcs) |-> R!StrictParseStream(srcs[s])] \o <<>>
+      \* r.rsrcs (optional): the same bytes with every raw line break INSIDE a string replaced by a letter - jawk reads such strings, the strict reader
+      \* does not; the values and their spans are taken from there (same lengths, same offsets), the lines and columns from the real bytes, and
+      \* the value of such a row is not compared
+      lenient == "rsrcs" \in DOMAIN r
+      refs == [s \in 1..Len(srcs) |-> R!StrictParseStream(IF lenient THEN r.rsrcs[s] ELSE srcs[s])] \o <<>>
       kept(s) == IF r.onlyObj THEN SelectSeq([k \in 1..Len(refs[s].vals) |-> k], LAMBDA k : refs[s].vals[k].t \in {"arr", "obj"})
                  ELSE [k \in 1..Len(refs[s].vals) |-> k]
       RECURSIVE Before(_)
@@ -81,7 +85,7 @@ CheckCtx(r) ==
            /\ IntOf(RowField(row, nI)) = g - 1
            /\ IntOf(RowField(row, nF)) = k - 1
            /\ (IF r.names = <<>> THEN KeyIdx(row, nFN) = 0 ELSE KeyIdx(row, nFN) # 0 /\ RowField(row, nFN) = Str(r.names[s]))
-           /\ FSame(refs[s].vals[vi], RowField(row, nV))
+           /\ (lenient \/ FSame(refs[s].vals[vi], RowField(row, nV)))
            /\ so >= 0 /\ so <= refs[s].spans[vi][1] - 1 /\ eo >= refs[s].spans[vi][2] - 1 /\ eo <= Len(srcs[s])      \* the range contains the value's text
            /\ (IF r.onlyObj THEN so >= prevEnd ELSE so = prevEnd)                                                      \* contiguous, no overlap
   IN IF r.res # "ok" THEN Flag("MISMATCH", r.case, "run did not succeed")
